@@ -383,6 +383,21 @@ fn check_node(w: &mut World, s: &S, p: [f64; 3], cx: &mut Cx, depth: usize) -> C
             return Ok(());
         }
         if (got - want).abs() > t {
+            // a discontinuity of the inner shape (the seam of a RepeatX) next
+            // to the mapped point makes the comparison meaningless
+            let d = 1e-4 * (1.0 + pm + scale);
+            for k in 0..3 {
+                for sg in [-1.0, 1.0] {
+                    let mut q2 = q;
+                    q2[k] += sg * d;
+                    if let Some(w2) = w.lib(inner, q2) {
+                        if (w2 - want).abs() > 20.0 * d * inner.lip().max(1.0) {
+                            cx.ev.count("transform_points_next_to_a_discontinuity_of_the_inner_shape");
+                            return Ok(());
+                        }
+                    }
+                }
+            }
             fail!(
                 format!("geometry-{name}"),
                 "{name}: value at {:?} is {got}, but the inner shape at the mapped point {:?} is {want} (tol {t:e}); spec {:?}",
@@ -821,15 +836,15 @@ impl Prop for P {
     fn plan(tier: Tier) -> Plan {
         match tier {
             Tier::Quick => Plan {
-                workers: 8,
-                cases_per_worker: 2500,
-                timeout_s: 1200,
+                workers: 16,
+                cases_per_worker: 15000,
+                timeout_s: 1800,
                 max_shrink_iters: 3000,
             },
             Tier::Thorough => Plan {
                 workers: 16,
-                cases_per_worker: 50000,
-                timeout_s: 7200,
+                cases_per_worker: 250000,
+                timeout_s: 14400,
                 max_shrink_iters: 3000,
             },
         }
